@@ -44,8 +44,8 @@ RULE = (
     "judgements. distinct_nontrivial = distinct (class, problem, history) with >= 1 operation rejected on at least one side "
     "or touching state created before the clone. Thorough tier only: one run of unified_planning/test under M-clone; one "
     "evaluation = one outermost clone() judged (suite:M-clone:judged); witnesses carry the test id (\"suite\": true) and are "
-    "replayed by re-running that test file under the monitor; inconclusive if the suite ran and fewer than 300 clones were "
-    "judged or fewer than 50 independence probes were made."
+    "replayed by re-running that test file under the monitor; inconclusive if the suite ran and fewer than 1500 clones were "
+    "judged or fewer than 300 independence probes were made."
 )
 ASSUMPTIONS = [
     "equality, hash and kind are the library's own notions (the statement is phrased in them)",
@@ -900,6 +900,6 @@ def thresholds(m):
         out.append("fewer than 50 distinct non-trivial histories")
     from vk.mon import suite as _suite
 
-    out.extend(_suite.thresholds(c, SUITE[1], 300))
-    out.extend(_suite.thresholds(c, "M-clone:independence_probes", 50))
+    out.extend(_suite.thresholds(c, SUITE[1], 1500))
+    out.extend(_suite.thresholds(c, "M-clone:independence_probes", 300))
     return out
